@@ -314,6 +314,9 @@ func H_Block() {
 				was := st.queues[i]
 				due := !was.ReleaseTime.After(now)
 				nd.Assert("C09.released-iff-due-or-was", nd.Iff(q.Released, nd.Or(was.Released, due)))
+				// C16: the published flag says "released" exactly for the instalments that have been paid (a due
+				// instalment of amount zero has been paid in full)
+				nd.Assert("C16.instalment-flagged-released-iff-paid", nd.Iff(q.Released, nd.Or(was.Released, due)))
 				nd.Assert("C09.instalment-amount-unchanged", q.PayingCoin.Amount.Equal(was.PayingCoin.Amount))
 				paidNow := nd.And(due, !was.Released)
 				paid = paid.Add(nd.IteZ(paidNow, nd.ZInt(was.PayingCoin.Amount), nd.ZOf(0)))
